@@ -57,7 +57,7 @@ func body(r *vf.Run) {
 		histChild(r)
 		return
 	}
-	n := r.N(16, 300)
+	n := r.N(16, 100)
 	workers := 4
 	if r.Thorough() {
 		workers = 6
@@ -357,6 +357,9 @@ func (h *hist) models(im *image) (pre, post *snapdrv.Model, op *snapdrv.Op) {
 
 func (h *hist) restartAll(im *image) {
 	r := h.r
+	for _, m := range []string{modeAllow, modeStrict, modeNoRest} {
+		r.Count("images_restarted:"+m, 1)
+	}
 	// all mounts succeed, three modes; the number of restore mounts is learnt there
 	nm := h.restart(im, modeAllow, -1, false)
 	h.restart(im, modeStrict, -1, false)
